@@ -285,9 +285,14 @@ class Provenance(Monitor):
                 self.keepalive.append(dup)
                 return True
         # inherited from an input, or created by a merge nested in this call
+        # (an input that already lists the callable twice for this name hands the duplicate on: this operation did
+        # not create it -- whether or not the merge that did was observed; merges of inputs with an incomplete
+        # provenance map are not judged and so not recorded)
         for s in inputs:
-            lst = s.sources.get(name, ())
-            if sum(1 for c in lst if c is dup) > 1 and (id(dup), name) in self.dup_known:
+            lst = getattr(s, 'sources', {}).get(name, ())
+            if sum(1 for c in lst if c is dup) > 1:
+                self.dup_known.add((id(dup), name))
+                self.keepalive.append(dup)
                 return True
         return (id(dup), name) in self.dup_known
 
